@@ -23,7 +23,11 @@ def server():
     """persistent replay process: one path per stdin line -> one JSON result per stdout line"""
     import io
     import contextlib
-    real_out = sys.stdout
+    # the protocol gets a private descriptor: anything the replayed code writes to fd 1 itself (prints from handlers
+    # that captured sys.stdout at import, C-level writes) must not end up between the JSON lines
+    import os
+    real_out = os.fdopen(os.dup(1), 'w')
+    os.dup2(os.open(os.devnull, os.O_WRONLY), 1)
     for line in sys.stdin:
         path = line.strip()
         if not path:
@@ -36,7 +40,7 @@ def server():
             import traceback
             code = 70
             buf.write('replay crashed: %s\n%s' % (ex, traceback.format_exc()[-1500:]))
-        real_out.write(json.dumps({'code': code, 'out': buf.getvalue()[-2000:]}) + '\n')
+        real_out.write('@@REPLAY ' + json.dumps({'code': code, 'out': buf.getvalue()[-2000:]}) + '\n')
         real_out.flush()
 
 
